@@ -1,7 +1,7 @@
 (* Correctness of the generator model for conv / pool / flatten / dense stacks (Model/GenNet.v), for every network. *)
 From Coq Require Import ZArith List Bool Arith Lia.
 From TLX Require Import Model.Bits Model.CLang Model.Netlist Model.Wiring Model.ConvNet Model.GenDense Model.GenNet Gen.GateCode.
-From TLX Require Import Proofs.BitsFacts Proofs.CLangFacts Proofs.GenDenseFacts Proofs.WiringFacts Proofs.ConvFacts.
+From TLX Require Import Proofs.BitsFacts Proofs.CLangFacts Proofs.GenDenseFacts Proofs.WiringFacts Proofs.ConvFacts Proofs.HostFacts.
 Import ListNotations.
 
 Definition agree_outside (m m' : memB) (B base : nat) : Prop :=
@@ -77,4 +77,251 @@ Lemma gate_eval : forall sz (m : memB) g ea eb va vb, g < 16 ->
 Proof.
   intros sz m g ea eb va vb Hg Ha Hb. destruct (template_tt g Hg) as [e [He Htt]].
   unfold gate_gexp. rewrite He. rewrite <- Htt. apply geval_subst; assumption.
+Qed.
+
+(* ---------- small list facts *)
+Lemma nth_map_seq : forall (A : Type) (f : nat -> A) n j d, j < n -> nth j (map f (seq 0 n)) d = f j.
+Proof.
+  intros A f n j d Hj. rewrite nth_indep with (d' := f 0) by (rewrite map_length, seq_length; exact Hj).
+  rewrite map_nth. rewrite seq_nth by exact Hj. reflexivity.
+Qed.
+
+Lemma flat_map_ext_in' : forall (A B : Type) (h1 h2 : A -> list B) l,
+  (forall a, In a l -> h1 a = h2 a) -> flat_map h1 l = flat_map h2 l.
+Proof.
+  intros A B h1 h2 l H. induction l as [|a r IH]; [reflexivity|]. cbn [flat_map].
+  rewrite H by (left; reflexivity). rewrite IH; [reflexivity|]. intros a' Ha. apply H. right. exact Ha.
+Qed.
+
+Lemma flat_map_grid : forall (B : Type) (f : nat -> nat -> list B) W len,
+  flat_map (fun i => flat_map (fun b => f i b) (seq 0 W)) (seq 0 len)
+  = flat_map (fun q => f (q / W) (q mod W)) (seq 0 (len * W)).
+Proof.
+  intros B f W len. rewrite <- (flat_map_reindex B (fun q => f (q / W) (q mod W)) W len).
+  apply flat_map_ext_in'. intros i _. apply flat_map_ext_in'. intros b Hb. apply in_seq in Hb.
+  assert (HW : W <> 0) by lia.
+  rewrite Nat.div_add_l by exact HW. rewrite Nat.div_small by lia. rewrite Nat.add_0_r.
+  rewrite Nat.add_comm, Nat.mod_add by exact HW. rewrite Nat.mod_small by lia. reflexivity.
+Qed.
+
+Lemma gates_lt16 : forall gates level node k,
+  forallb (forallb (forallb (fun g => g <? 16))) gates = true -> gate_at gates level node k < 16.
+Proof.
+  intros gates level node k H. unfold gate_at.
+  destruct (nth_in_or_default level gates []) as [Hin| ->]; [|destruct node; cbn; destruct k; lia].
+  rewrite forallb_forall in H. specialize (H _ Hin).
+  destruct (nth_in_or_default node (nth level gates []) []) as [Hin2| ->]; [|destruct k; cbn; lia].
+  rewrite forallb_forall in H. specialize (H _ Hin2).
+  destruct (nth_in_or_default k (nth node (nth level gates []) []) 0) as [Hin3| ->]; [|lia].
+  rewrite forallb_forall in H. specialize (H _ Hin3). apply Nat.ltb_lt. exact H.
+Qed.
+
+(* ---------- the levels of one tree *)
+Notation treeB gates := (tree_levels false (fun level node k => tt (gate_at gates level node k))).
+
+Lemma levels_correct : forall n_levels sz loc gates k level pb nb dst di cur (m : memB),
+  1 <= n_levels -> length cur = 2 ^ n_levels -> nb = pb + 2 ^ n_levels ->
+  loc <> 0 -> dst <> 0 -> loc <> dst ->
+  nb + (2 ^ n_levels - 2) <= size_of sz loc -> di < size_of sz dst ->
+  (forall j, j < 2 ^ n_levels -> m loc (pb + j) = Some (nth j cur false)) ->
+  (forall l j, gate_at gates l j k < 16) ->
+  exists m', bodyB sz m (gen_levels loc gates k level n_levels pb (2 ^ n_levels) nb dst di) = Some m' /\
+    m' dst di = Some (nth 0 (treeB gates k level n_levels cur) false) /\
+    (forall b i, (b <> loc \/ i < nb) -> (b <> dst \/ i <> di) -> m' b i = m b i).
+Proof.
+  induction n_levels as [|n IH]; intros sz loc gates k level pb nb dst di cur m H1 Hlen Hnb Hl0 Hd0 Hld Hsz Hdi Hcur Hg; [lia|].
+  destruct n as [|n].
+  - (* last level: one gate into dst *)
+    change (2 ^ 1) with 2 in *. cbn [gen_levels exec_body exec_stmt].
+    assert (dst =? 0 = false) as -> by (apply Nat.eqb_neq; exact Hd0).
+    assert (di <? size_of sz dst = true) as -> by (apply Nat.ltb_lt; exact Hdi). cbn [orb negb].
+    rewrite (gate_eval sz m _ _ _ (nth 0 cur false) (nth 1 cur false)).
+    + eexists. split; [reflexivity|]. split.
+      * unfold upd. rewrite !Nat.eqb_refl. cbn [andb]. cbn [tree_levels]. rewrite Hlen. cbn. reflexivity.
+      * intros b i _ Hc. unfold upd. destruct (Nat.eqb_spec b dst) as [->|]; [|reflexivity].
+        destruct (Nat.eqb_spec i di) as [->|]; [|reflexivity]. destruct Hc; congruence.
+    + apply Hg.
+    + cbn [geval]. assert (pb <? size_of sz loc = true) as -> by (apply Nat.ltb_lt; lia).
+      rewrite <- (Nat.add_0_r pb). apply Hcur. lia.
+    + cbn [geval]. assert (pb + 1 <? size_of sz loc = true) as -> by (apply Nat.ltb_lt; lia).
+      apply Hcur. lia.
+  - (* an inner level: 2^(S n) gates into fresh temporaries, then the rest *)
+    set (h := 2 ^ S n) in *.
+    assert (Hh : 2 ^ S (S n) = 2 * h) by (unfold h; rewrite (Nat.pow_succ_r' 2 (S n)); reflexivity).
+    assert (Hdiv : 2 ^ S (S n) / 2 = h) by (rewrite Hh, Nat.mul_comm; apply Nat.div_mul; lia).
+    assert (Hh1 : 2 <= h) by (unfold h; rewrite Nat.pow_succ_r'; pose proof (Nat.pow_nonzero 2 n); lia).
+    change (gen_levels loc gates k level (S (S n)) pb (2 ^ S (S n)) nb dst di) with
+      (map (fun j => SAssign loc (nb + j)
+                      (gate_gexp (gate_at gates level j k) (GLoad loc (pb + 2 * j)) (GLoad loc (pb + 2 * j + 1))))
+           (seq 0 (2 ^ S (S n) / 2))
+       ++ gen_levels loc gates k (S level) (S n) nb (2 ^ S (S n) / 2) (nb + 2 ^ S (S n) / 2) dst di).
+    rewrite Hdiv. rewrite body_app.
+    set (nxt := fun j => tt (gate_at gates level j k) (nth (2 * j) cur false) (nth (2 * j + 1) cur false)).
+    destruct (block_correct sz h
+                (fun j => gate_gexp (gate_at gates level j k) (GLoad loc (pb + 2 * j)) (GLoad loc (pb + 2 * j + 1)))
+                nxt loc nb m Hl0 ltac:(lia)) as [m1 [He1 [Hv1 Ho1]]].
+    { intros j m' Hj Hag. unfold nxt. apply gate_eval; [apply Hg| |]; cbn [geval].
+      - assert (pb + 2 * j <? size_of sz loc = true) as -> by (apply Nat.ltb_lt; lia).
+        rewrite Hag by (right; lia). apply Hcur. lia.
+      - assert (pb + 2 * j + 1 <? size_of sz loc = true) as -> by (apply Nat.ltb_lt; lia).
+        rewrite Hag by (right; lia). rewrite <- Nat.add_assoc. apply Hcur. lia. }
+    rewrite He1.
+    assert (A1 : length (map nxt (seq 0 h)) = 2 ^ S n) by (rewrite map_length, seq_length; reflexivity).
+    assert (A2 : nb + h = nb + 2 ^ S n) by reflexivity.
+    assert (A3 : nb + h + (2 ^ S n - 2) <= size_of sz loc) by (fold h; lia).
+    assert (A4 : forall j, j < 2 ^ S n -> m1 loc (nb + j) = Some (nth j (map nxt (seq 0 h)) false)).
+    { fold h. intros j Hj. rewrite nth_map_seq by exact Hj. apply Hv1. exact Hj. }
+    destruct (IH sz loc gates k (S level) nb (nb + h) dst di (map nxt (seq 0 h)) m1 ltac:(lia) A1 A2 Hl0 Hd0 Hld A3 Hdi A4 Hg)
+      as [m2 [He2 [Hv2 Ho2]]].
+    fold h in He2. rewrite He2. eexists. split; [reflexivity|]. split.
+    + rewrite Hv2. cbn [tree_levels]. rewrite Hlen, Hdiv. reflexivity.
+    + intros b i Hc1 Hc2. rewrite Ho2; [|destruct Hc1; [left; assumption|right; lia]|exact Hc2].
+      apply Ho1. destruct Hc1; [left; assumption|right; left; assumption].
+Qed.
+
+(* ---------- one convolution cell (kernel k at output position p) *)
+Notation fnB cs := (fun level node k => tt (gate_at (cv_gates cs) level node k)).
+
+Lemma wf_conv_gates : forall cs l j k, wf_conv cs = true -> gate_at (cv_gates cs) l j k < 16.
+Proof. intros cs l j k H. unfold wf_conv in H. apply andb_prop in H. apply gates_lt16. apply H. Qed.
+
+Lemma wf_conv_chan : forall cs k g, wf_conv cs = true -> k < cv_K cs -> g < 2 ^ cv_depth cs ->
+  snd (nth g (nth k (cv_rel_a cs) []) ([], 0)) < cv_C cs /\ snd (nth g (nth k (cv_rel_b cs) []) ([], 0)) < cv_C cs.
+Proof.
+  intros cs k g H Hk Hg. unfold wf_conv in H. apply andb_prop in H. destruct H as [_ H].
+  rewrite forallb_forall in H. specialize (H k ltac:(apply in_seq; lia)).
+  rewrite forallb_forall in H. specialize (H g ltac:(apply in_seq; lia)).
+  apply andb_prop in H. destruct H as [Ha Hb]. apply Nat.ltb_lt in Ha, Hb. split; assumption.
+Qed.
+
+Definition leaf_val (cs : conv_spec) (x : list bool) (k p g : nat) : bool :=
+  tt (gate_at (cv_gates cs) 0 g k)
+     (let '(r, c) := nth g (nth k (cv_rel_a cs) []) ([], 0) in window false cs x p c r)
+     (let '(r, c) := nth g (nth k (cv_rel_b cs) []) ([], 0) in window false cs x p c r).
+
+Lemma leaf_eval : forall sz (m : memB) prev cs k p g x,
+  wf_conv cs = true -> k < cv_K cs -> g < 2 ^ cv_depth cs ->
+  holds m prev x -> length x = cv_C cs * prod (cv_dims cs) -> length x <= size_of sz prev ->
+  gevalB sz m (gate_gexp (gate_at (cv_gates cs) 0 g k)
+                 (src_ref prev (cv_dims cs) (cv_pad cs) (window_start cs p) (nth g (nth k (cv_rel_a cs) []) ([], 0)))
+                 (src_ref prev (cv_dims cs) (cv_pad cs) (window_start cs p) (nth g (nth k (cv_rel_b cs) []) ([], 0))))
+  = Some (leaf_val cs x k p g).
+Proof.
+  intros sz m prev cs k p g x Hwf Hk Hg Hh Hl Hs. unfold leaf_val.
+  destruct (wf_conv_chan cs k g Hwf Hk Hg) as [Ha Hb].
+  destruct (nth g (nth k (cv_rel_a cs) []) ([], 0)) as [ra ca].
+  destruct (nth g (nth k (cv_rel_b cs) []) ([], 0)) as [rb cb]. cbn [snd] in Ha, Hb.
+  apply gate_eval; [apply wf_conv_gates; exact Hwf| |]; unfold window;
+    apply src_ref_eval with (C := cv_C cs); assumption.
+Qed.
+
+Lemma holds_agree : forall (m m' : memB) b x, holds m b x -> (forall i, m' b i = m b i) -> holds m' b x.
+Proof. intros m m' b x H Ha i Hi. rewrite Ha. apply H. exact Hi. Qed.
+
+Lemma conv_cell_correct : forall sz loc prev dst cs k p base x (m : memB),
+  wf_conv cs = true -> k < cv_K cs ->
+  loc <> 0 -> dst <> 0 -> loc <> dst -> prev <> loc -> prev <> dst ->
+  holds m prev x -> length x = cv_C cs * prod (cv_dims cs) -> length x <= size_of sz prev ->
+  base + locals_per_cell (cv_depth cs) <= size_of sz loc ->
+  k * prod (cv_out_dims cs) + p < size_of sz dst ->
+  exists m', bodyB sz m (gen_conv_cell loc prev dst cs k p base) = Some m' /\
+    m' dst (k * prod (cv_out_dims cs) + p) = Some (kernel_tree false (fnB cs) cs k (window false cs x p)) /\
+    (forall b i, b <> loc -> (b <> dst \/ i <> k * prod (cv_out_dims cs) + p) -> m' b i = m b i).
+Proof.
+  intros sz loc prev dst cs k p base x m Hwf Hk Hl0 Hd0 Hld Hpl Hpd Hh Hlen Hsz Hloc Hdi.
+  unfold gen_conv_cell, kernel_tree. fold (leaf_val cs x k p).
+  change (map (fun g => tt (gate_at (cv_gates cs) 0 g k)
+                          (let '(r, c) := nth g (nth k (cv_rel_a cs) []) ([], 0) in window false cs x p c r)
+                          (let '(r, c) := nth g (nth k (cv_rel_b cs) []) ([], 0) in window false cs x p c r))
+              (seq 0 (2 ^ cv_depth cs))) with (map (leaf_val cs x k p) (seq 0 (2 ^ cv_depth cs))).
+  destruct (cv_depth cs) as [|d] eqn:Ed.
+  - (* depth 0 *)
+    cbn [exec_body exec_stmt].
+    assert (dst =? 0 = false) as -> by (apply Nat.eqb_neq; exact Hd0).
+    assert (k * prod (cv_out_dims cs) + p <? size_of sz dst = true) as -> by (apply Nat.ltb_lt; exact Hdi). cbn [orb negb].
+    rewrite (leaf_eval sz m prev cs k p 0 x Hwf Hk ltac:(rewrite Ed; cbn; lia) Hh Hlen Hsz).
+    eexists. split; [reflexivity|]. split.
+    + unfold upd. rewrite !Nat.eqb_refl. reflexivity.
+    + intros b i _ Hc. unfold upd. destruct (Nat.eqb_spec b dst) as [->|]; [|reflexivity].
+      destruct (Nat.eqb_spec i (k * prod (cv_out_dims cs) + p)) as [->|]; [|reflexivity]. destruct Hc; congruence.
+  - rewrite body_app. unfold locals_per_cell in Hloc.
+    assert (Hp2 : 2 ^ S (S d) = 2 * 2 ^ S d) by (rewrite (Nat.pow_succ_r' 2 (S d)); reflexivity).
+    assert (Hpos : 2 <= 2 ^ S d) by (rewrite (Nat.pow_succ_r' 2 d); pose proof (Nat.pow_nonzero 2 d); lia).
+    destruct (block_correct sz (2 ^ S d)
+                (fun g => gate_gexp (gate_at (cv_gates cs) 0 g k)
+                   (src_ref prev (cv_dims cs) (cv_pad cs) (window_start cs p) (nth g (nth k (cv_rel_a cs) []) ([], 0)))
+                   (src_ref prev (cv_dims cs) (cv_pad cs) (window_start cs p) (nth g (nth k (cv_rel_b cs) []) ([], 0))))
+                (leaf_val cs x k p) loc base m Hl0 ltac:(lia)) as [m1 [He1 [Hv1 Ho1]]].
+    { intros g m' Hg Hag. apply leaf_eval; try assumption; [rewrite Ed; exact Hg|].
+      apply holds_agree with (m := m); [exact Hh|]. intros i. apply Hag. left. exact Hpl. }
+    rewrite He1.
+    assert (A1 : length (map (leaf_val cs x k p) (seq 0 (2 ^ S d))) = 2 ^ S d) by (rewrite map_length, seq_length; reflexivity).
+    assert (A4 : forall j, j < 2 ^ S d -> m1 loc (base + j) = Some (nth j (map (leaf_val cs x k p) (seq 0 (2 ^ S d))) false)).
+    { intros j Hj. rewrite nth_map_seq by exact Hj. apply Hv1. exact Hj. }
+    destruct (levels_correct (S d) sz loc (cv_gates cs) k 1 base (base + 2 ^ S d) dst (k * prod (cv_out_dims cs) + p)
+                (map (leaf_val cs x k p) (seq 0 (2 ^ S d))) m1 ltac:(lia) A1 eq_refl Hl0 Hd0 Hld ltac:(lia) Hdi A4
+                (fun l j => wf_conv_gates cs l j k Hwf)) as [m2 [He2 [Hv2 Ho2]]].
+    rewrite He2. eexists. split; [reflexivity|]. split; [exact Hv2|].
+    intros b i Hb Hc. rewrite Ho2; [|left; exact Hb|exact Hc]. apply Ho1. left. exact Hb.
+Qed.
+
+(* ---------- a grid of cells, cell q writing dst[q] and scratch cells of loc only *)
+Lemma cells_correct : forall sz (cell : nat -> list stmt) (v : nat -> bool) loc dst n (m : memB),
+  loc <> dst ->
+  (forall q m1, q < n -> (forall b i, b <> loc -> b <> dst -> m1 b i = m b i) ->
+     exists m2, bodyB sz m1 (cell q) = Some m2 /\ m2 dst q = Some (v q) /\
+       (forall b i, b <> loc -> (b <> dst \/ i <> q) -> m2 b i = m1 b i)) ->
+  exists m', bodyB sz m (flat_map cell (seq 0 n)) = Some m' /\
+    (forall q, q < n -> m' dst q = Some (v q)) /\
+    (forall b i, b <> loc -> (b <> dst \/ n <= i) -> m' b i = m b i).
+Proof.
+  intros sz cell v loc dst n m Hld. induction n as [|n IH]; intros Hcell.
+  - exists m. split; [reflexivity|]. split; [intros q Hq; lia|reflexivity].
+  - destruct IH as [m1 [He1 [Hv1 Ho1]]]; [intros q m1 Hq Hag; apply Hcell; [lia|exact Hag]|].
+    rewrite seq_S, flat_map_app, body_app, He1. cbn [Nat.add flat_map]. rewrite app_nil_r.
+    destruct (Hcell n m1 ltac:(lia)) as [m2 [He2 [Hv2 Ho2]]].
+    { intros b i Hb Hb'. apply Ho1; [exact Hb|left; exact Hb']. }
+    exists m2. split; [exact He2|]. split.
+    + intros q Hq. destruct (Nat.eq_dec q n) as [->|Hne]; [exact Hv2|].
+      rewrite Ho2; [|congruence|right; exact Hne]. apply Hv1. lia.
+    + intros b i Hb Hc. rewrite Ho2; [|exact Hb|destruct Hc; [left; assumption|right; lia]].
+      apply Ho1; [exact Hb|destruct Hc; [left; assumption|right; lia]].
+Qed.
+
+Lemma divmod_grid : forall q K P, q < K * P -> q / P < K /\ q mod P < P /\ q / P * P + q mod P = q.
+Proof.
+  intros q K P Hq. assert (HP : P <> 0) by (intros ->; lia).
+  split; [apply Nat.div_lt_upper_bound; [exact HP|lia]|]. split; [apply Nat.mod_upper_bound; exact HP|].
+  pose proof (Nat.div_mod q P HP). lia.
+Qed.
+
+Lemma conv_layer_correct : forall sz loc prev dst cs base x (m : memB),
+  wf_conv cs = true ->
+  loc <> 0 -> dst <> 0 -> loc <> dst -> prev <> loc -> prev <> dst ->
+  holds m prev x -> length x = cv_C cs * prod (cv_dims cs) -> length x <= size_of sz prev ->
+  base + conv_locals cs <= size_of sz loc ->
+  cv_K cs * prod (cv_out_dims cs) <= size_of sz dst ->
+  exists m', bodyB sz m (gen_conv loc prev dst cs base) = Some m' /\
+    holds m' dst (conv_eval cs x) /\
+    (forall b i, b <> loc -> b <> dst -> m' b i = m b i).
+Proof.
+  intros sz loc prev dst cs base x m Hwf Hl0 Hd0 Hld Hpl Hpd Hh Hlen Hsz Hloc Hdst.
+  unfold gen_conv. rewrite flat_map_grid. set (P := prod (cv_out_dims cs)) in *.
+  set (lpc := locals_per_cell (cv_depth cs)) in *. unfold conv_locals in Hloc. fold P lpc in Hloc.
+  destruct (cells_correct sz
+              (fun q => gen_conv_cell loc prev dst cs (q / P) (q mod P) (base + (q / P * P + q mod P) * lpc))
+              (fun q => kernel_tree false (fnB cs) cs (q / P) (window false cs x (q mod P)))
+              loc dst (cv_K cs * P) m Hld) as [m' [He [Hv Ho]]].
+  { intros q m1 Hq Hag. destruct (divmod_grid q (cv_K cs) P Hq) as [Hk [Hp Hqe]].
+    destruct (conv_cell_correct sz loc prev dst cs (q / P) (q mod P) (base + (q / P * P + q mod P) * lpc) x m1)
+      as [m2 [He2 [Hv2 Ho2]]]; try assumption.
+    - apply holds_agree with (m := m); [exact Hh|]. intros i. apply Hag; assumption.
+    - fold lpc. rewrite Hqe. nia.
+    - fold P. rewrite Hqe. lia.
+    - fold P in Hv2, Ho2. rewrite Hqe in Hv2, Ho2. exists m2. split; [exact He2|]. split; [exact Hv2|exact Ho2]. }
+  exists m'. split; [exact He|]. split.
+  - intros i Hi. unfold conv_eval in Hi. rewrite conv_out_length in Hi. fold P in Hi.
+    rewrite Hv by exact Hi. f_equal. destruct (divmod_grid i (cv_K cs) P Hi) as [Hk [Hp Hqe]].
+    rewrite <- Hqe at 3. unfold conv_eval. symmetry. apply conv_shared_tree; assumption.
+  - intros b i Hb Hb'. apply Ho; [exact Hb|left; exact Hb'].
 Qed.
